@@ -155,7 +155,7 @@ def observe(r, st, hd, text, etag_cid):
             etag_cid[hd["ETag"]] = o["cid"]
     if r["method"] == "PUT" and st in (201, 204) and not r.get("as_collection") and hd.get("ETag") and len(r["objs"]) == 1:
         etag_cid[hd["ETag"]] = r["objs"][0]["cid"]
-    if st == 207:
+    if st == 207 and r["method"] in ("PROPFIND", "MULTIGET"):
         ms, order, _ = parse_multistatus(text)
         rows = []
         for href in order:
@@ -170,7 +170,9 @@ def observe(r, st, hd, text, etag_cid):
             if r["method"] == "MULTIGET":
                 rows.append([comps, "item" if et is not None and et[0] == 200 else "missing", et[1].text if et is not None and et[0] == 200 else None])
             else:
-                rows.append([comps, "coll" if is_coll else "item", et[1].text if (et is not None and et[0] == 200 and not is_coll) else None])
+                dn = props.get("D:displayname")
+                rows.append([comps, "coll" if is_coll else "item", et[1].text if (et is not None and et[0] == 200 and not is_coll) else None,
+                             (dn[1].text if dn is not None and dn[0] == 200 else None) if is_coll else None])
         o["rows"] = sorted(rows, key=lambda x: (x[0], x[1]))
     return o
 
@@ -184,9 +186,12 @@ def model_matches(r, obs, ans, etag_cid):
         ments = sorted([[e["path"], e["type"], e.get("etag")] for e in ans["entries"]], key=lambda x: (x[0], x[1]))
         if [(x[0], x[1]) for x in ments] != [(x[0], x[1]) for x in obs["rows"]]:
             return False
+        dns = {tuple(e["path"]): e.get("displayname") for e in ans["entries"] if e["type"] == "coll"}
         for a, b in zip(obs["rows"], ments):
             if a[1] == "item" and a[2] is not None and a[2] in etag_cid and isinstance(b[2], int) and etag_cid[a[2]] != b[2]:
                 return False
+            if a[1] == "coll" and len(a) > 3 and tuple(a[0]) in dns and (a[3] or None) != (dns[tuple(a[0])] or None):
+                return False                  # the collection's display name is part of what a listing shows
     return True
 
 
@@ -652,6 +657,66 @@ def run_queued_writers(ctx, rng, hid):
         transport.close()
 
 
+def run_crossprocess_sequence(ctx, rng, hid):
+    """several server processes on one folder, requests strictly one after the other, each sent to a process chosen at random:
+    every answer must be the sequential model's.  No schedule is involved — this is what catches state a process keeps across
+    requests (property / listing caches) that another process's write does not invalidate."""
+    sim = davsim.Sim.__new__(davsim.Sim)
+    transport = MultiProcess({}, rng.choice([2, 3]), 0)
+    etag_cid = {}
+    try:
+        base = ctx.driver.ask1({"m": "dav", "op": "new"})["sid"]
+        lin = Linearizer(ctx, [], None, etag_cid, base)
+        cal = ["u", "c1"]
+        reqs = [SETUP[0], {"method": "PUT", "path": cal + ["a.ics"], "body": "cal", "objs": [POOL[0]]}]
+        procs = [0, 1 % len(transport.ports)]
+        nproc = len(transport.ports)
+        # rounds: one write on one process, then every process reads (each has read before: whatever it kept must be refreshed)
+        for i in range(rng.randint(4, 7)):
+            k = rng.random()
+            if k < 0.45:
+                w = {"method": "PROPPATCH", "path": cal, "as_collection": True, "set": [["D:displayname", "name%d" % i]], "remove": [],
+                     "sets_type": False, "bad_body": False}
+            elif k < 0.7:
+                o = rng.choice([x for x in POOL if x["kind"] != "VCARD"])
+                w = {"method": "PUT", "path": cal + [rng.choice(["a.ics", "b.ics"])], "body": "cal", "objs": [o]}
+            elif k < 0.8:
+                w = {"method": "DELETE", "path": cal + [rng.choice(["a.ics", "b.ics"])], "as_collection": False}
+            elif k < 0.9:
+                w = {"method": "DELETE", "path": cal, "as_collection": True}
+            else:
+                w = {"method": "MKCALENDAR", "path": cal, "props": [["D:displayname", "made%d" % i]], "bad_body": False}
+            reqs.append(w)
+            procs.append(rng.randrange(nproc))
+            for pr in range(nproc):
+                reqs.append(rng.choice([{"method": "PROPFIND", "path": cal, "as_collection": True, "depth1": True},
+                                        {"method": "PROPFIND", "path": cal, "as_collection": True, "depth1": False},
+                                        {"method": "PROPFIND", "path": ["u"], "as_collection": True, "depth1": True},
+                                        {"method": "GET", "path": cal + ["a.ics"], "as_collection": False}]))
+                procs.append(pr)
+        sid = base
+        done = []
+        for i, r in enumerate(reqs):
+            m, path, body, env = davsim.Sim.http(sim, r)
+            proc = procs[i]
+            st, hd, text = transport.send(proc, m, path, body, env)
+            obs = observe(r, st, hd, text, etag_cid)
+            ans = lin.model_req(sid, r)
+            done.append({"process": proc, "request": {k2: v for k2, v in r.items() if k2 != "objs"}, "status": st})
+            ctx.case("cross-process:%s:%d" % (r["method"], st), sample={"request": done[-1]}, key=[hid, i], nontrivial=i >= 2)
+            if not model_matches(r, obs, ans, etag_cid):
+                replay = {"processes": len(transport.ports), "history": done, "observed": obs,
+                          "model": {"status": ans["status"], "entries": ans.get("entries")}}
+                if sequential_explained(ctx, [{"r": x} for x in reqs[2:i + 1]], reqs[:2]):
+                    ctx.violation("requests sent one after the other to %d processes sharing one folder: the answer of request %d differs from "
+                                  "the one-process answer (state kept by a process across requests?)" % (len(transport.ports), i), replay)
+                else:
+                    ctx.disagree("the sequential model does not explain these requests even in one process", replay, obs, ans["status"])
+                return
+    finally:
+        transport.close()
+
+
 def witness_f6(ctx):
     """first login = three lock windows; a DELETE of the home between creation and handler"""
     from radicale import app as rapp
@@ -711,4 +776,6 @@ def run(ctx):
         run_between_windows(ctx, rng, ("w", h))
     for h in range(ctx.n(16, 400)):
         run_queued_writers(ctx, rng, ("q", h))
+    for h in range(ctx.n(3, 80)):
+        run_crossprocess_sequence(ctx, rng, ("s", h))
     witness_f6(ctx)
